@@ -217,9 +217,9 @@ def render_input(rng, g, toks, ws="none"):
     if ws == "space":
         return " ".join(chars)
     if ws == "layout" and g.layout in ("comments", "nested"):
-        pool = ["", " ", "\n", " // note\n", "//x\n ", "  "]
+        pool = ["", " ", "\n", " // note\n", "//x\n ", "  ", " // nöte €\n", "//中\n"]
         if g.layout == "nested":
-            pool += ["/* c */", " /* a /* b */ c */ ", "/**/"]
+            pool += ["/* c */", " /* a /* b */ c */ ", "/**/", "/* ü€ */", " /* ä /* 中 */ é */ "]
             if rng.random() < 0.15:
                 # an unterminated block comment: not layout, the input is then no sentence whatever follows
                 pool += ["/* c ", "/*", " /* a /* b */ "]
